@@ -283,6 +283,14 @@ class ShimThread:
         self.s.spawn(self.name, lambda: self.target(*self.args))
 
     def join(self, timeout=None):
+        if timeout is not None:
+            # a bounded join: whenever it is scheduled while the thread is still running, its timeout has expired and it gives up
+            self.s.yield_point('join_timeout')
+            if self.name not in self.s.done:
+                self.s.emit('join_timeout')
+                return
+            self.s.emit('join')
+            return
         self.s.yield_point('join', lambda: self.name in self.s.done)
         self.s.emit('join')
 
